@@ -9,7 +9,7 @@ the model's layout.
 import random
 
 from vmon import env  # noqa: F401
-from vmon.simkit import Mon
+from vmon.simkit import Mon, spell_int, spell_str
 from vmon.models.memmap import names_conflict
 
 from amaranth_soc import csr
@@ -120,6 +120,8 @@ def run_case(case):
             offset, bad = rng.choice([-ratio, "0", 1.0]), "offset"
         if rng.random() < 0.05:
             name, bad = rng.choice(["", None, 3, ("a",)]), "name"
+        if isinstance(name, str) and name:
+            name = spell_str(rng, name)
         reg_obj = r
         if rng.random() < 0.03:
             reg_obj, bad = rng.choice([object(), None, "reg"]), "reg"
@@ -154,7 +156,7 @@ def run_case(case):
     def scoped(depth):
         """Open a random scope, run a few ops inside, sometimes raise through it."""
         kind = rng.choice(["cluster", "index"])
-        val = rng.choice(["blk", "a", "x"]) if kind == "cluster" else rng.randint(0, 3)
+        val = spell_str(rng, rng.choice(["blk", "a", "x"])) if kind == "cluster" else spell_int(rng, rng.randint(0, 3))
         if rng.random() < 0.1:
             val = rng.choice(["", None, 5]) if kind == "cluster" else rng.choice([-1, "0", None])
             try:
